@@ -22,7 +22,7 @@ type Event struct {
 
 func (e Event) String() string {
 	switch e.Kind {
-	case "seen", "abandon":
+	case "seen", "abandon", "recredit":
 		return fmt.Sprintf("%s(t%d)", e.Kind, e.T)
 	case "mine":
 		return fmt.Sprintf("mine(t%d,h%d,b%d)", e.T, e.H, e.ID)
@@ -191,6 +191,11 @@ func (r *Ref) Enabled(maxH, nIDs int) []Event {
 		if ht == -1 {
 			evs = append(evs, Event{Kind: "abandon", T: t})
 		}
+		// recredit(t): the credits of a known transaction are reported again
+		// (AddCredit without a preceding new insert); must change nothing.
+		if ht != -2 {
+			evs = append(evs, Event{Kind: "recredit", T: t})
+		}
 		// mine(t,h,id): into the tip block (same id) or a new higher block.
 		if ht >= 0 {
 			// redelivery of a confirmed transaction with its own block
@@ -287,7 +292,7 @@ func (r *Ref) Apply(e Event) {
 		}
 	case "tick":
 		r.Now++
-	case "sweep", "restart":
+	case "sweep", "restart", "recredit":
 	}
 }
 
